@@ -25,9 +25,48 @@ def real_plans(tier):
     return [dict(real=True, gens="star,hole", variants="base", n=500 if q else 20000, seed=s + 50, where="interior,origin,far,nl")]
 
 
+def dedupe_part(tier, drv, cov):
+    """Dedupe.tla: kmpDeduplicate as the code does it, transcribed; TLC runs it on every label sequence without equal neighbours
+    (4 labels <= 9 / 5 labels <= 10) and evaluates the contract of the spike removal; every sequence is replayed through the real
+    function, which must return what the transcription computes (DedupeTrace.tla). The sequences on which an adjacency is invented
+    (finding F5, the root of the only known way to a C01 crossing) are counted at design level."""
+    import concurrent.futures
+    cfg = "MC_Dedupe_quick.cfg" if tier == "quick" else "MC_Dedupe_thorough.cfg"
+    r = vlib.run_tlc("Dedupe", cfg, timeout=7200, heap="10g", gc="parallel")
+    if not r.ok:
+        raise vlib.Broken("design model Dedupe/%s fails: %s\n%s" % (cfg, r.violated or r.error, r.trace_text[:2000]))
+    vecs = [x for x in r.vecs if "ring" in x]
+    if len(vecs) < 25000:
+        raise vlib.Broken("expected at least 25000 sequences from MC_Dedupe, got %d" % len(vecs))
+    p = vlib.run([drv, "kmp-run"], input="\n".join(json.dumps({"ring": x["ring"]}) for x in vecs) + "\n", timeout=3600)
+    if p.returncode != 0:
+        raise vlib.Broken("kmp-run failed: " + p.stderr[-2000:])
+    lines = p.stdout.splitlines()
+    anomalies = []
+    states = 0
+    chunks = [lines[i::8] for i in range(8)]
+    with concurrent.futures.ThreadPoolExecutor(max_workers=8) as ex:
+        futs = [ex.submit(vlib.validate_records, "DedupeTrace", "DedupeTrace.cfg", "dedupe_trace.ndjson", c, None, 2, 7200, 3,
+                          lambda inv, idx, line: anomalies.append((inv, line))) for c in chunks]
+        for f in futs:
+            states += f.result()[0]
+    cov["dedupe_model"] = {"model": cfg, "states": r.distinct, "sequences": len(vecs), "wall_s": round(r.wall, 1),
+                           "sequences_inventing_an_adjacency_F5": sum(1 for x in vecs if x["invents"])}
+    cov["dedupe_sequences_replayed"] = len(lines)
+    cov["dedupe_anomalies"] = len(anomalies)
+    cov["states"] += r.distinct + states
+    cov["traces_validated_against_impl"] += len(lines)
+    return anomalies
+
+
 def run(tier):
+    def post(v, drv, cov):
+        anomalies = dedupe_part(tier, drv, cov)
+        if anomalies and not v.violations:
+            raise vlib.Broken("the real kmpDeduplicate differs from Dedupe.tla on %d sequence(s), e.g. %s (%s): the design results do not "
+                              "transfer to this code, and no polygon-level failure was found" % (len(anomalies), anomalies[0][1][:400], anomalies[0][0]))
     return snapcheck.run_snap_property(
-        PROP, tier, "SnapTrace_C01.cfg", plans(tier), design=('snap', 'snapquad', 'rounding'), real_plans=real_plans(tier), real_cfg="RealTrace_C01.cfg",
+        PROP, tier, "SnapTrace_C01.cfg", plans(tier), design=('snap', 'snapquad', 'rounding'), real_plans=real_plans(tier), real_cfg="RealTrace_C01.cfg", post=post,
         rule="random star-shaped / holed / collapse-prone lattice polygons (validity decided by the TLA+ predicate ValidPolygon), "
              "40-95 % of coordinates aligned to pixel borders or centres, 1-3 tile matrices per call, random flags, 5 synthetic grids "
              "at random placements; every pair of returned edges of every tile matrix tested for a proper crossing by TLC",
